@@ -217,12 +217,19 @@ def support_claim_script(name, claim_id20, tail):
     return bytes([OP_SUPPORT_CLAIM]) + push(name) + push(claim_id20) + bytes([OP_2DROP, OP_DROP]) + tail
 
 
+def support_claim_data_script(name, claim_id20, data, tail):
+    return (bytes([OP_SUPPORT_CLAIM]) + push(name) + push(claim_id20) + push(data) + bytes([OP_2DROP, OP_2DROP])
+            + tail)
+
+
 def tokenize(script):
     """-> list of ints (opcodes) and bytes (pushed data); raises ValueError on a truncated push."""
     r, out = _Reader(script), []
     while r.i < len(script):
         op = r.uint(1)
-        if 1 <= op < OP_PUSHDATA1:
+        if op == OP_0:
+            out.append(b'')          # OP_0 pushes the empty byte string
+        elif 1 <= op < OP_PUSHDATA1:
             out.append(r.take(op))
         elif op == OP_PUSHDATA1:
             out.append(r.take(r.uint(1)))
@@ -551,6 +558,12 @@ def selftest():
     assert classify(claim_name_script(b'n', b'c', p2pkh(k))) == ('claim', k)
     assert classify(update_claim_script(b'n', k, b'c', p2pkh(k))) == ('claim', k)
     assert classify(support_claim_script(b'n', k, p2pkh(k))) == ('support', k)
+    assert classify(support_claim_data_script(b'n', k, b'd', p2pkh(k))) == ('support', k)
+    # a claim script is a claim whatever its payload or name bytes are
+    for payload in (b'', b'\x07', b'{"ver": "9.9"}', b'\xa5' * 4096):
+        assert classify(claim_name_script(b'\xff\xfe', payload, p2pkh(k))) == ('claim', k)
+        assert classify(update_claim_script(b'n', k, payload, p2pkh(k))) == ('claim', k)
+        assert classify(support_claim_data_script(b'n', k, payload, p2pkh(k))) == ('support', k)
     for s in (p2sh(k), p2wpkh(k), op_return(b'x'), op_return(b'x', b'y'), b'', b'\x4d\x05', b'\x05\xaa',
               bare_multisig_1of2(b'\x02' * 33, b'\x03' * 33), p2pk(b'\x02' * 33),
               claim_name_script(b'n', b'c', p2sh(k))):
